@@ -59,7 +59,12 @@ async def run_world(net, plan, which, cut=None):
             tree.update({f"/srv/u{i}{k}": v for k, v in corpus_tree([""]).items()})
         w = W.World(net, tree=tree, users=users)
     else:
-        w = W.World(net, tree=corpus_tree(prefixes), users=corpus_users)
+        users_ = corpus_users
+        if plan.get("limits"):
+            # an account with a connection limit that the concurrent sessions together never exceed
+            def users_(base):
+                return [aioftp.User(base_path=base), aioftp.User("alice", "secret", base_path=base, maximum_connections=plan["limits"])]
+        w = W.World(net, tree=corpus_tree(prefixes), users=users_, backend=plan.get("backend", "memory"))
     await w.start()
     try:
         rng = random.Random(plan["seed"])
@@ -86,11 +91,19 @@ async def run_world(net, plan, which, cut=None):
         d.finish_peers()
         await net.quiesce(1.0)
         tree = w.tree()
-        calls = list(w.ctl.calls)
+        root = "" if plan.get("backend", "memory") == "memory" else str(w.base).rstrip("/")
+        calls = [(nn, port, op, (pth[len(root):] or "/") if (pth is not None and root and pth.startswith(root)) else pth, t)
+                 for (nn, port, op, pth, t) in w.ctl.calls]
         out = []
         for s in d.sessions:
             port = s.peer.writer.transport.get_extra_info("sockname")[1] if s.peer.writer else None
-            out.append({"transcript": s.peer.normalized(), "downloads": [[v, a, bytes(b).hex(), st] for v, a, b, st in s.downloads],
+            def norm_dl(v, b):
+                if root and v in ("MLSD", "LIST"):
+                    # a real directory carries real time stamps (they differ between two runs): names only
+                    return ",".join(sorted((ln.split(b"; ", 1)[-1] if v == "MLSD" else ln.rsplit(b" ", 1)[-1]).hex()
+                                           for ln in bytes(b).split(b"\r\n") if ln))
+                return bytes(b).hex()
+            out.append({"transcript": s.peer.normalized(), "downloads": [[v, a, norm_dl(v, b), st] for v, a, b, st in s.downloads],
                         "port": port, "alive_end": s.ended_by})
         await w.stop()
         return out, tree, calls, net.order_signature(), d.cut_done
@@ -325,6 +338,22 @@ def gen_cases(tier, seed):
                           "users": ["anon", "alice", "anon"][:k], "offsets": [round(rng.random() * 0.002, 4) for _ in range(k)],
                           "lat": [rng.choice([0.0005, 0.001]) for _ in range(4)], "mss": [1460, 536, 1460],
                           "backend_delay": [0.0007, 0.0011]})
+    # an account limited to two connections: a session that mistypes the password and leaves, then two real ones
+    for j in range(4 if tier == "quick" else 40):
+        scripts = [["login_bad_pw", "login_pw", "login_pw"], ["login_bad_pw", "login_bad_pw", "login_pw", "login_pw"],
+                   ["login_pw", "login_bad_pw", "login_pw"], ["login_bad_pw", "walk", "login_pw", "login_pw"]][j % 4]
+        k = len(scripts)
+        plans.append({"seed": seed * 271 + j, "limits": 2, "scripts": scripts, "prefixes": [f"/s{x}" for x in range(k)],
+                      "users": ["alice" if sc != "walk" else "anon" for sc in scripts],
+                      "offsets": [round(0.05 * x + rng.random() * 0.002, 4) for x in range(k)], "lat": [0.0005, 0.001, 0.001, 0.002],
+                      "mss": [1460, 1460, 1460], "backend_delay": None})
+    # the file-system back ends (one path-io object per session, each bound to its own connection)
+    for j in range(6 if tier == "quick" else 120):
+        k = 2 + j % 2
+        plans.append({"seed": seed * 1319 + j, "backend": ["pathio", "async"][j % 2], "scripts": [rng.choice(["stor_pasv", "retr_pasv", "mlsd", "rename", "mkd_rmd", "walk", "appe", "dele"]) for _ in range(k)],
+                      "prefixes": [f"/s{x}" for x in range(k)], "users": ["anon", "alice", "anon"][:k],
+                      "offsets": [round(rng.random() * 0.003, 4) for _ in range(k)], "lat": [0.0005, 0.001, 0.001, 0.002], "mss": [1460, 536, 1460],
+                      "backend_delay": None})
     # different users, different base directories, identical virtual paths
     base_ok = [nm for nm in NAMES if nm not in ("login_pw", "relogin")]
     for j in range(30 if tier == "quick" else 800):
